@@ -4,11 +4,12 @@ PROVED (coq/Properties_C05.v, model coq/Numrecs.v, proofs coq/Proofs_Numrecs.v; 
 arbitrary operation lists, arbitrary number of ranks, record indices, wait subsets; independent
 operations of different ranks are separate list elements, so every relative timing of the ranks
 is one of the quantified lists):
-  for the library AS IT IS (req_commit's newnumrecs loop over the queue HEAD, commit_loop):
-    numrecs_monotone, coll_agree (all ranks equal = header field in collective mode), numrecs_upper,
-    indep_sync_agree; coll_coherent_full / completed_write_readable_full are REFUTED (F1: witness
-    histories replayed on the library by this check) and proved under the hypothesis that every
-    wait finds its record requests among the first k queue entries (_partial);
+  for req_commit's newnumrecs loop AS WRITTEN in the snapshot (over the queue HEAD, commit_loop, run_head):
+    numrecs_monotone_head, coll_agree_head (all ranks equal = header field in collective mode, never above
+    max(N0, written)), indep_sync_agree_head; coll_coherent_full / indep_then_sync_full /
+    completed_write_readable_full are REFUTED (F1: witness histories replayed on the library by this
+    check) and proved under the hypothesis that every wait finds its record requests among the first k
+    queue entries (_partial);
   for the corrected loop (commit_fixed): coll_coherent, indep_then_sync, numrecs_monotone,
     completed_write_readable in full.
 TIE: the variant (loop bound) is read from the sources as built; histories (directed witnesses, all
@@ -59,6 +60,20 @@ def detect_loop(lib):
     return None, 'unknown loop bound ' + m[0]
 
 
+def impl_path(impl):
+    """the harness binary lives in the content-addressed library cache, which a concurrent build of
+    another tree may evict; rebuild it then (same tree hash -> same library)"""
+    if not os.path.isfile(impl):
+        with C.Lock('c05-rebuild'):
+            if not os.path.isfile(impl):
+                C._libcache.pop('default', None)
+                lib = C.libdir()
+                new = S.impl_exe(lib)
+                if new != impl:
+                    raise C.BuildFailure('the library of the tree under test changed while the check was running (%s -> %s)' % (impl, new))
+    return impl
+
+
 def run_impl(hists, impl, wd, jobs=8, batch=30, tag='b'):
     """execute the histories on the real library; returns list of dict(h, status, lay, obs, script)"""
     groups = {}
@@ -74,7 +89,7 @@ def run_impl(hists, impl, wd, jobs=8, batch=30, tag='b'):
         bi, idxs = args
         hs = [hists[i] for i in idxs]
         text, bases = G.batch_script(hs)
-        r = S.run_script(text, impl, None, wd, '%s%d' % (tag, bi), want_model=False, timeout=30 + 3 * len(hs))
+        r = S.run_script(text, impl_path(impl), None, wd, '%s%d' % (tag, bi), want_model=False, timeout=30 + 3 * len(hs))
         out = []
         for h, i, base in zip(hs, idxs, bases):
             try:
@@ -85,7 +100,7 @@ def run_impl(hists, impl, wd, jobs=8, batch=30, tag='b'):
             except (KeyError, IndexError, ValueError):
                 # rerun alone
                 t1, b1 = G.batch_script([h])
-                r1 = S.run_script(t1, impl, None, wd, '%s%d-%d' % (tag, bi, i), want_model=False, timeout=25)
+                r1 = S.run_script(t1, impl_path(impl), None, wd, '%s%d-%d' % (tag, bi, i), want_model=False, timeout=40)
                 try:
                     if r1.hang:
                         out.append((i, dict(h=h, status='hang', lay=None, obs=None, detail='watchdog')))
@@ -104,7 +119,7 @@ def run_impl(hists, impl, wd, jobs=8, batch=30, tag='b'):
 
 
 def run_model(items, wd, jobs=8, shard=300):
-    """items: list of (np, ops_term) -> list of (trace_cur, trace_fixed, headok_cur, headok_fixed)"""
+    """items: list of (np, ops_term) -> list of (trace_head, trace_fixed, headok_head, headok_fixed)"""
     shards = [items[i:i + shard] for i in range(0, len(items), shard)]
 
     def one(args):
